@@ -4,6 +4,7 @@
 import Hdl21Model.ModulePipe
 import Hdl21Model.Lemmas.ConnTypes
 import Hdl21Model.Lemmas.ExportWF
+import Hdl21Model.Lemmas.ResolveTotal
 namespace Hdl21.ModulePipe
 open Hdl21 Hdl21.Pkg Hdl21.RoundTrip Hdl21.ExportWF
 
@@ -175,5 +176,46 @@ theorem orphanage_inst {h : HModule} (ho : orphanage h = true) :
   have := ho i hi
   rw [List.all_eq_true] at this
   exact this pc hpc
+
+
+/-! ### the stages answer when their inputs are in order -/
+
+theorem resolveConns_total (fuel : Nat) : ∀ (cs : List (String × SConn)),
+    (∀ pc ∈ cs, ∃ r, resolveSliceable fuel pc.2 = .ok r) → ∃ rs, resolveConns fuel cs = .ok rs
+  | [], _ => ⟨[], by rw [resolveConns]⟩
+  | (pn, c) :: rest, h => by
+    obtain ⟨r, hr⟩ := h (pn, c) (List.mem_cons_self ..)
+    obtain ⟨rs, hrs⟩ := resolveConns_total fuel rest (fun pc hpc => h pc (List.mem_cons_of_mem _ hpc))
+    exact ⟨(pn, r) :: rs, by rw [resolveConns]; simp only [hr, hrs]⟩
+
+theorem resolveInsts_total (fuel : Nat) : ∀ (is : List HInst),
+    (∀ i ∈ is, ∀ pc ∈ i.conns, ∃ r, resolveSliceable fuel pc.2 = .ok r) → ∃ rs, resolveInsts fuel is = .ok rs
+  | [], _ => ⟨[], by rw [resolveInsts]⟩
+  | i :: rest, h => by
+    obtain ⟨cs, hcs⟩ := resolveConns_total fuel i.conns (h i (List.mem_cons_self ..))
+    obtain ⟨rs, hrs⟩ := resolveInsts_total fuel rest (fun j hj => h j (List.mem_cons_of_mem _ hj))
+    exact ⟨⟨i.name, i.ref, i.params, cs⟩ :: rs, by rw [resolveInsts]; simp only [hcs, hrs]⟩
+
+theorem le_foldl_max : ∀ (l : List Nat) (b x : Nat), x ∈ l ∨ x ≤ b → x ≤ l.foldl max b
+  | [], b, x, h => by
+    rcases h with h | h
+    · cases h
+    · exact h
+  | y :: ys, b, x, h => by
+    rw [List.foldl_cons]
+    apply le_foldl_max ys (max b y) x
+    rcases h with h | h
+    · rcases List.mem_cons.mp h with rfl | h
+      · exact Or.inr (Nat.le_max_right ..)
+      · exact Or.inl h
+    · exact Or.inr (Nat.le_trans h (Nat.le_max_left ..))
+
+theorem needR_le_fuelOf (h : HModule) (i : HInst) (hi : i ∈ h.instances) (pc : String × SConn) (hpc : pc ∈ i.conns) :
+    needR pc.2 ≤ fuelOf h := by
+  unfold fuelOf
+  apply le_foldl_max
+  left
+  rw [List.mem_flatMap]
+  exact ⟨i, hi, List.mem_map.mpr ⟨pc, hpc, rfl⟩⟩
 
 end Hdl21.ModulePipe
